@@ -221,7 +221,8 @@ class ForestScenario(explore.Scenario):
     skip_class_names = ("LazyIntervalTree",)
 
     def __init__(self, pool, inits, props, c16_probes=False, ctor_ops=True,
-                 attr_ops=True, idx_wide=True, save_load_prefix=True):
+                 attr_ops=True, idx_wide=True, save_load_prefix=True,
+                 live_ops=True):
         self.pool = pool
         self.inits = inits
         self.props = props
@@ -229,6 +230,7 @@ class ForestScenario(explore.Scenario):
         self.ctor_ops = ctor_ops
         self.attr_ops = attr_ops
         self.idx_wide = idx_wide
+        self.live_ops = live_ops
         self.save_load_prefix = save_load_prefix
 
     # ------------------------------------------------------------ building
@@ -335,6 +337,20 @@ class ForestScenario(explore.Scenario):
                                 [[elems[0]], [elems[0]]]] if elems else
                                ["set", owner, field, "update", [[], []]])
                 out.append(["set", owner, field, "update", []])
+                # operands that are themselves live owning collections (of
+                # this or of another parent): adding moves elements out of
+                # the very collection that is being iterated
+                if self.live_ops:
+                    for src in names_by_kind(w, K[owner]):
+                        lv = {"live": src}
+                        out.append(["set", owner, field, "update", [lv]])
+                        for m in ("ior", "ixor", "isub", "iand"):
+                            out.append(["set", owner, field, m, lv])
+                    others = [x for x in names_by_kind(w, K[owner])
+                              if x != owner]
+                    if others and elems:
+                        out.append(["set", owner, field, "update",
+                                    [{"live": others[0]}, [elems[0]]]])
         # module-list operations
         mods = names_by_kind(w, "M")
         lists = [[]] + [[m] for m in mods] + [list(p) for p in
@@ -361,6 +377,13 @@ class ForestScenario(explore.Scenario):
                     out.append(["mods", ir, "setslice", a, b, L])
                 for (a, b, c) in exts:
                     out.append(["mods", ir, "setext", a, b, c, L])
+            if self.live_ops:
+                for src in names_by_kind(w, "I"):
+                    lv = {"live": src}
+                    out.append(["mods", ir, "extend", lv])
+                    out.append(["mods", ir, "iadd", lv])
+                    out.append(["mods", ir, "setslice", None, None, lv])
+                    out.append(["mods", ir, "setslice", 0, 1, lv])
             for i in idx:
                 out.append(["mods", ir, "delitem", i])
                 out.append(["mods", ir, "pop", i])
@@ -386,6 +409,18 @@ class ForestScenario(explore.Scenario):
         return out
 
     def ctor_variants(self, w, kind):
+        out = self.ctor_variants0(w, kind)
+        if self.live_ops:
+            # children given as the live collection of an existing parent
+            for field, ek in FIELDS.get(kind, ()):
+                for src in names_by_kind(w, kind):
+                    out.append({field: {"live": src}})
+            if kind == "M":
+                for src in names_by_kind(w, "M"):
+                    out.append({f: {"live": src} for f, _ in FIELDS["M"]})
+        return out
+
+    def ctor_variants0(self, w, kind):
         if kind == "I":
             ms = names_by_kind(w, "M")
             return [{"modules": L} for L in ([], ms[:1], ms[:2], ms[:1] * 2)]
@@ -475,6 +510,11 @@ class ForestScenario(explore.Scenario):
             _, owner, field, m, arg = op
             ek = dict(FIELDS[w.kind[owner]])[field]
             cur = set(f.children(owner, ek))
+            if isinstance(arg, dict):
+                arg = sorted(f.children(arg["live"], ek))
+            elif m == "update":
+                arg = [sorted(f.children(it["live"], ek))
+                       if isinstance(it, dict) else it for it in arg]
             if m == "add":
                 f.attach(arg, owner)
             elif m == "discard":
@@ -534,6 +574,8 @@ class ForestScenario(explore.Scenario):
             cur = list(f.mods[ir])
             sh = list(cur)
             ret = ("none", None)
+            op = [list(f.mods[a["live"]]) if isinstance(a, dict) else a
+                  for a in op]
             try:
                 if m == "append":
                     sh.append(op[3])
@@ -612,8 +654,13 @@ class ForestScenario(explore.Scenario):
                 if m == "clear":
                     return s.clear(), None
                 if m == "update":
-                    return s.update(*[[O[x] for x in it] for it in arg]), None
-                other = {O[x] for x in arg}
+                    return s.update(*[
+                        getattr(O[it["live"]], field) if isinstance(it, dict)
+                        else [O[x] for x in it] for it in arg]), None
+                if isinstance(arg, dict):
+                    other = getattr(O[arg["live"]], field)
+                else:
+                    other = {O[x] for x in arg}
                 if m.endswith("_fs"):
                     other = frozenset(other)
                 fn = {"ior": operator.ior, "isub": operator.isub,
@@ -627,6 +674,12 @@ class ForestScenario(explore.Scenario):
             if kind == "mods":
                 L = O[op[1]].modules
                 m = op[2]
+
+                def objs(a):
+                    if isinstance(a, dict):
+                        return O[a["live"]].modules
+                    return [O[x] for x in a]
+
                 if m == "append":
                     return L.append(O[op[3]]), None
                 if m == "remove":
@@ -637,12 +690,12 @@ class ForestScenario(explore.Scenario):
                     L[op[3]] = O[op[4]]
                     return None, None
                 if m == "extend":
-                    return L.extend([O[x] for x in op[3]]), None
+                    return L.extend(objs(op[3])), None
                 if m == "iadd":
-                    r = operator.iadd(L, [O[x] for x in op[3]])
+                    r = operator.iadd(L, objs(op[3]))
                     return ("self" if r is L else r), None
                 if m == "setslice":
-                    L[op[3]:op[4]] = [O[x] for x in op[5]]
+                    L[op[3]:op[4]] = objs(op[5])
                     return None, None
                 if m == "setext":
                     L[op[3]:op[4]:op[5]] = [O[x] for x in op[6]]
@@ -870,11 +923,16 @@ class ForestScenario(explore.Scenario):
             ir = op[1]
             cur = model.mods[ir]
             args = []
+            live = ""
             for a in op[3:]:
                 if isinstance(a, str):
                     args.append(a)
                 elif isinstance(a, list):
                     args += a
+                elif isinstance(a, dict):
+                    live = ";live-operand=%s" % (
+                        "self" if a["live"] == ir else "other")
+                    args += model.mods[a["live"]]
             rel = []
             for a in args:
                 if a in cur:
@@ -884,22 +942,34 @@ class ForestScenario(explore.Scenario):
                 else:
                     rel.append("detached")
             nums = [a for a in op[3:] if isinstance(a, int) or a is None]
-            return "len=%d;idx=%s;args=%s" % (len(cur), nums, rel)
+            return "len=%d;idx=%s;args=%s%s" % (len(cur), nums, rel, live)
         if op[0] == "set":
             owner = op[1]
             arg = op[4]
             flat = []
+            live = ""
+            ek = dict(FIELDS[w.kind[owner]])[op[2]]
+
+            def lv(a):
+                nonlocal live
+                live = ";live-operand=%s" % (
+                    "self" if a["live"] == owner else "other")
+                return sorted(model.children(a["live"], ek))
+
             if isinstance(arg, str):
                 flat = [arg]
+            elif isinstance(arg, dict):
+                flat = lv(arg)
             elif isinstance(arg, list):
                 for a in arg:
-                    flat += a if isinstance(a, list) else [a]
+                    flat += (a if isinstance(a, list) else
+                             (lv(a) if isinstance(a, dict) else [a]))
             rel = []
             for a in flat:
                 p = model.parent[a]
                 rel.append("member" if p == owner else
                            ("owned-elsewhere" if p else "detached"))
-            return "kind=%s;args=%s" % (w.kind[owner], rel)
+            return "kind=%s;args=%s%s" % (w.kind[owner], rel, live)
         if op[0] == "setp":
             c, p = op[1], op[2]
             q = model.parent[c]
@@ -957,8 +1027,15 @@ class ForestScenario(explore.Scenario):
         u = U(90 + "IMSYPBKD".index(kind))
         before_attrs = self.attr_snapshot(w)
         kw = {}
-        for key, val in variant.items():
-            if isinstance(val, list):
+        variant = dict(variant)
+        for key, val in list(variant.items()):
+            if isinstance(val, dict):
+                kw[key] = getattr(O[val["live"]], key)
+                ek = dict(FIELDS[kind])[key]
+                variant[key] = (list(w.model.mods[val["live"]])
+                                if kind == "I" else
+                                sorted(w.model.children(val["live"], ek)))
+            elif isinstance(val, list):
                 kw[key] = [O[x] for x in val]
             else:
                 kw[key] = None if val is None else O[val]
